@@ -513,3 +513,253 @@ def _register():
 
 
 _register()
+
+
+# -------------------------------------------------------------------------------------------------
+# fill(): integer and fractional filling loops (abstract arrays with ghost sums, loop invariants)
+# -------------------------------------------------------------------------------------------------
+
+from pycv.wp.numext import ARR_EXT, Mat2, Rep3, RowArr  # noqa: E402
+
+
+def _filled_world(Nspin, fractional=False):
+    w = World()
+    occ = gen_occ(w, "occ")
+    occ.fields["_Nspin"] = Nspin
+    occ.fields["is_filled"] = False
+    ne, sp = occ.fields["_Nelec"].e, occ.fields["_spin"].e
+    base = [ne >= 1, occ.fields["_bands"].e >= 0, occ.fields["_Nk"].e >= 1, occ.fields["_smearing"].e >= 0, sp >= 0]
+    if Nspin == 1:
+        occ.fields["_spin"] = 0
+    else:
+        base += [sp <= ne]
+        base += [(ne % 2 != sp % 2) if fractional else (ne % 2 == sp % 2)]
+    return w, occ, base
+
+
+def _while_spec(row_index, target_of_row):
+    """Loop contract of the overflow-removal loops `while rest[...] > 0` (see DESIGN appendix B).
+
+    ghost: C = number of columns, f = filling value, the row being emptied from the right. Invariant:
+      i >= 1, rest >= 0, total(row) - rest == target(row), rest <= f*(C - i + 1),
+      columns 0..C-i of the row still hold f, columns C-i+1.. hold 0; every other row is untouched."""
+
+    def get(it, env):
+        self_ = env["self"]
+        mat = self_.fields["_f"]
+        if not isinstance(mat, Mat2):
+            raise OutsideSubset("fillings are not an abstract array")
+        r = row_index(env)
+        return mat, mat.rows[r], r
+
+    def havoc_row(it, env, tag):
+        mat, row, r = get(it, env)
+        mat.rows[r] = RowArr.fresh(it.w, f"row{tag}", row.n)
+        return None
+
+    def havoc_rest(it, env, tag):
+        cur = env["rest"]
+        from pycv.wp.execute import Vec
+
+        if isinstance(cur, Vec):
+            r = row_index(env)
+            new = Vec(cur)
+            new[r] = it.w.fresh(f"rest{tag}", "real")
+            return new
+        return it.w.fresh(f"rest{tag}", "real")
+
+    def inv(it, env, idx):
+        mat, row, r = get(it, env)
+        f = it.as_z3(env["f"], "real")
+        C = row.nz()
+        i = it.as_z3(env["i"], "int")
+        rest = env["rest"]
+        from pycv.wp.execute import Vec
+
+        if isinstance(rest, Vec):
+            rest = rest[r]
+        rest = it.as_z3(rest, "real")
+        tgt = target_of_row(it, env, r)
+        c = z3.Int("c!inv")
+        return z3.And(
+            i >= 1, rest >= 0, row.total - rest == tgt, rest <= f * z3.ToReal(C - i + 1),
+            z3.ForAll([c], z3.Implies(z3.And(c >= 0, c <= C - i), z3.Select(row.elems, c) == f)),
+            z3.ForAll([c], z3.Implies(z3.And(c > C - i, c < C), z3.Select(row.elems, c) == 0)),
+        )
+
+    def variant(it, env):
+        mat, row, r = get(it, env)
+        return row.nz() - it.as_z3(env["i"], "int") + 1
+
+    return LoopSpec({"rest": havoc_rest, "i": "int", "self._f": havoc_row}, inv, variant)
+
+
+class Fillings:
+    """Post-conditions of fill() on the real Occupations code for a symbolic electron count / spin / band count / smearing:
+    sum of the fillings == Nelec, 0 <= f_i <= 2/Nspin, up - down == spin, same fillings for every k-point."""
+
+    def __init__(self, Nspin, fractional=False, magnetization=False):
+        self.Nspin, self.fractional, self.magnetization = Nspin, fractional, magnetization
+
+    def __call__(self, ob, tier, seed):
+        Nspin = self.Nspin
+        w, occ, base = _filled_world(Nspin, self.fractional)
+        mag = None
+        if self.magnetization:
+            mag = named(w, "m", "real")
+            base = [c for c in base if "%" not in str(c)] + [mag.e >= -1, mag.e <= 1]
+        ne = occ.fields["_Nelec"].e
+        sp = occ.fields["_spin"].e if isinstance(occ.fields["_spin"], Sym) else z3.IntVal(0)
+        if self.fractional:
+            def target(it, env, r):
+                el = env["elecs"]
+                return it.as_z3(el[r], "real")
+
+            specs = {("while", "rest[spin] > 0"): _while_spec(lambda env: int(env["spin"]), target)}
+        else:
+            def target(it, env, r):
+                # integer fillings: only the last row is emptied; its target is Nelec minus the (full) other rows
+                self_ = env["self"]
+                mat = self_.fields["_f"]
+                others = z3.RealVal(0)
+                for k, row in enumerate(mat.rows):
+                    if k != len(mat.rows) - 1:
+                        others = others + row.total
+                return z3.ToReal(self_.fields["_Nelec"].e) - others
+
+            specs = {("while", "rest > 0"): _while_spec(lambda env: -1, target)}
+
+        def run(it):
+            from contracts.state_common import clone
+
+            s = clone(occ)
+            f = it.get_attr(s, "fill")
+            it.call(f, [], {} if mag is None else {"magnetization": mag})
+            return None, s
+
+        try:
+            res = explore(w, run, assumptions=base, ext=ARR_EXT, loop_specs=specs, max_paths=2000)
+        except OutsideSubset as e:
+            return Result(UNDECIDED, backend="engine-Z", detail=f"outside subset: {e}")
+        nobl, fails = discharge_obligations(w, res)
+        if fails:
+            label, v, model = fails[0]
+            if v == "unknown":
+                return Result(UNDECIDED, backend="z3", detail=f"{label}: z3 unknown")
+            return self._refute(f"obligation `{label}` fails", model, ne, sp, w)
+        npost = 0
+        fval = 2.0 / Nspin
+        for r in res:
+            if r.outcome == "cut":
+                continue
+            if r.outcome != "return":
+                return Result(UNDECIDED, backend="engine-Z", detail=f"path ended with {r.outcome}: {r.value}")
+            s = r.state
+            final = s.fields["_f"]
+            if not isinstance(final, Rep3):
+                return self._refute("the final fillings are not the same array repeated for every k-point", None, ne, sp, w)
+            mat = final.mat
+            goals = [("sum of fillings == Nelec", mat.total() == z3.ToReal(ne)),
+                     ("one copy per k-point", (final.n if not isinstance(final.n, int) else z3.IntVal(final.n)) == occ.fields["_Nk"].e)]
+            c = z3.Int("c!post")
+            for k, row in enumerate(mat.rows):
+                goals.append((f"0 <= f[{k}, c] <= {fval}", z3.ForAll([c], z3.Implies(z3.And(c >= 0, c < row.nz()),
+                                                                            z3.And(z3.Select(row.elems, c) >= 0, z3.Select(row.elems, c) <= fval)))))
+                ns = s.fields["_Nstate"]
+                goals.append(("Nstate == number of columns", row.nz() == (ns.e if isinstance(ns, Sym) else z3.IntVal(int(ns)))))
+            if Nspin == 2 and mag is None:
+                goals.append(("up - down == spin", mat.rows[0].total - mat.rows[1].total == z3.ToReal(sp)))
+            if mag is not None:
+                goals.append(("(up - down) / Nelec == requested magnetization", mat.rows[0].total - mat.rows[1].total == mag.e * z3.ToReal(ne)))
+            for label, g in goals:
+                v, model = check_valid(w, r.path.pc, g, timeout_ms=30000)
+                npost += 1
+                if v == "proved":
+                    continue
+                if v == "unknown":
+                    return Result(UNDECIDED, backend="z3", detail=f"post-condition `{label}`: z3 unknown")
+                return self._refute(f"post-condition `{label}` fails", model, ne, sp, w)
+        return Result(DISCHARGED, backend="z3", stats=dict(paths=len(res), loop_obligations=nobl, postconditions=npost))
+
+    def _refute(self, msg, model, ne, sp, w):
+        wit = dict(Nspin=self.Nspin, fractional=self.fractional)
+        if model is not None:
+            try:
+                wit["Nelec"] = model.eval(ne, model_completion=True).as_long()
+                wit["spin"] = model.eval(sp, model_completion=True).as_long()
+                for nm in ("occ._bands", "occ._Nk"):
+                    wit[nm] = model.eval(z3.Int(nm), model_completion=True).as_long()
+                sm = model.eval(z3.Real("occ._smearing"), model_completion=True)
+                wit["smearing"] = float(sm.as_fraction()) if hasattr(sm, "as_fraction") else 0.0
+            except Exception:  # noqa: BLE001
+                pass
+        ok, info = self.replay(wit)
+        return Result(REFUTED, backend="z3", witness=wit, replayed=ok, replay_info=info, solver_output=str(model)[:1500] if model is not None else "",
+                      detail=f"fill() with Nspin={self.Nspin}{' (fractional)' if self.fractional else ''}: {msg}; counter-model {wit}")
+
+    def replay(self, wit):
+        """Native check of the post-conditions around the counter-model (the model fixes Nelec/spin/bands/smearing)."""
+        import itertools
+
+        import eminus
+        from eminus.occupations import Occupations
+
+        eminus.config.backend = "numpy"
+        eminus.config.verbose = "critical"
+        Nspin = wit["Nspin"]
+        cands = []
+        if "Nelec" in wit:
+            cands.append((wit["Nelec"], wit.get("spin", 0), wit.get("occ._bands", 0), wit.get("smearing", 0.0)))
+        for ne, sp, extra, sm in itertools.product(range(1, 9), range(0, 5), (0, 1, 3), (0.0, 0.01)):
+            cands.append((ne, sp, extra, sm))
+        for ne, sp, bands, sm in cands:
+            if Nspin == 1:
+                sp = 0
+            if sp > ne or ((ne % 2 == sp % 2) == bool(wit.get("fractional")) and Nspin == 2):
+                continue
+            o = Occupations()
+            o.Nelec, o.Nspin, o.spin = int(ne), Nspin, int(sp)
+            o.smearing = sm
+            nst_min = int(np.ceil(max(ne / 2 + sp / 2, 1) / (2 / Nspin)))
+            o.bands = 0 if bands == 0 else max(int(bands), nst_min) + (bands if bands < 4 else 0)
+            o.wk = [0.5, 0.5]
+            try:
+                o.fill()
+            except Exception as e:  # noqa: BLE001
+                return True, dict(Nelec=ne, spin=sp, bands=int(o.bands), smearing=sm, raised=f"{type(e).__name__}: {e}")
+            f = np.asarray(o.f, dtype=float)
+            tot = float(np.sum(np.asarray(o.wk)[:, None, None] * f))
+            bad = []
+            if abs(tot - ne) > 1e-9:
+                bad.append(f"k-weighted sum {tot} != Nelec {ne}")
+            if f.min() < -1e-12 or f.max() > 2 / Nspin + 1e-12:
+                bad.append(f"filling outside [0, {2 / Nspin}]")
+            if Nspin == 2 and abs(float(f[0, 0].sum() - f[0, 1].sum()) - sp) > 1e-9:
+                bad.append(f"up-down {float(f[0, 0].sum() - f[0, 1].sum())} != spin {sp}")
+            if f.shape != (2, Nspin, o.Nstate):
+                bad.append(f"shape {f.shape}")
+            if bad:
+                return True, dict(Nelec=ne, spin=sp, bands=int(o.bands), smearing=sm, violated=bad, f=f[0].tolist())
+        return False, dict(note="post-conditions hold natively on the scanned grid of (Nelec, spin, bands, smearing)")
+
+
+def _register_fill():
+    Z = ("engineZ", "z3")
+    for Nspin in (1, 2):
+        register(Obligation(name=f"C13.fill.integer.Nspin{Nspin}", prop=PROP, engine="Z",
+                            functions=["eminus.occupations:Occupations.fill", "eminus.occupations:Occupations._update_from_fillings",
+                                       "eminus.occupations:Occupations._integer_fillings"],
+                            run=Fillings(Nspin), budget={"quick": 200, "thorough": 900}, assumes=Z,
+                            doc=f"fill() (Nspin={Nspin}, integer branch): sum f = Nelec, 0 <= f <= 2/Nspin, up-down = spin, Nstate columns, "
+                                "same for every k-point; index validity and loop invariant of the overflow-removal loop (any Nelec, spin, bands, smearing)"))
+    register(Obligation(name="C13.fill.fractional.Nspin2", prop=PROP, engine="Z",
+                        functions=["eminus.occupations:Occupations.fill", "eminus.occupations:Occupations._fractional_fillings"],
+                        run=Fillings(2, fractional=True), budget={"quick": 200, "thorough": 900}, assumes=Z,
+                        doc="fill() (Nspin=2, parity of Nelec and spin differs -> fractional branch): same post-conditions"))
+    register(Obligation(name="C13.fill.magnetization.Nspin2", prop=PROP, engine="Z",
+                        functions=["eminus.occupations:Occupations.fill", "eminus.occupations:Occupations._fractional_fillings"],
+                        run=Fillings(2, fractional=True, magnetization=True), budget={"quick": 300, "thorough": 900}, assumes=Z,
+                        doc="fill(magnetization=m), -1 <= m <= 1: sum f = Nelec, 0 <= f <= 1, (up - down)/Nelec = m"))
+
+
+_register_fill()
